@@ -13,6 +13,10 @@ from .oblig import env_from_model
 
 PID = "C10"
 TOL = 1e-9
+# the C++ folds k * max_dt in double arithmetic while the sum of the recorded steps is taken
+# in exact rationals here: the two differ by a few ulps of the time difference (<= 1e-13 for
+# |dt| <= 2000), so the solver claim carries that slack; the float replay uses 1e-9 itself
+SLACK = 1e-12
 
 
 def build_standin(d, *, control, cal, max_dt, sids=(), concrete=False, use_readings=None):
@@ -110,7 +114,7 @@ def cpp_task(control, cal, max_dt, K, tier, seed, nread=0):
             tot = z3.RealVal(0)
             for dv in leg:
                 tot = tot + dv
-            claims.append((f"leg{gi} sum of steps within 1e-9 of the time difference", z3.And(tot - dl <= qval(TOL), dl - tot <= qval(TOL))))
+            claims.append((f"leg{gi} sum of steps within 1e-9 of the time difference", z3.And(tot - dl <= qval(TOL) + qval(SLACK), dl - tot <= qval(TOL) + qval(SLACK))))
             cur = target
         nsteps = sum(len(g) for g in legs)
         for nm, cl in claims:
